@@ -34,6 +34,7 @@ void put16(Bytes &b, uint16_t v);
 void put32(Bytes &b, uint32_t v);
 bool put_name(Bytes &b, const std::string &dotted);   // false if a label is empty/too long
 Bytes dns_build_query(uint16_t id, const std::string &name, uint16_t type, bool edns0, bool rd = true);
+Bytes dns_rebuild(const DnsMsg &m);   // re-serialise a parsed message (names re-written, question-name compression only)
 
 enum { QT_A = 1, QT_NS = 2, QT_CNAME = 5, QT_NULL = 10, QT_MX = 15, QT_TXT = 16, QT_SRV = 33, QT_OPT = 41, QT_PRIVATE = 65399 };
 
